@@ -27,6 +27,18 @@ def strategy(tier):
     )
 
 
+def enumerated(tier, seed):
+    """steep laws far out in the tail: the value is a (possibly sub-normal or zero) probability, never an exception --
+    k**alpha itself is beyond the double range here, k**-alpha is not"""
+    out = []
+    for alpha, ks in ((60, [1, 2, 1000, 10 ** 6]), (60.0, [10 ** 6, 10 ** 5]), (100, [1, 1211, 5000]), (20.0, [3, 10 ** 16]),
+                      (3.5, [10 ** 90, 7]), (12, [10 ** 26, 2])):
+        out.append({"dist": "power_law", "alpha": alpha, "ks": ks, "np": False})
+    for alpha, kappa, ks in ((6, 50.0, [10 ** 60, 2]), (8, 2000.0, [10 ** 40, 3])):
+        out.append({"dist": "cutoff", "alpha": alpha, "kappa": kappa, "ks": ks, "np": False})
+    return out
+
+
 def check(case):
     import mpmath as mp
     import numpy as np
